@@ -69,6 +69,9 @@ CHECKS = {
  "C09": ("exploration", "independent README-only encoder/decoder: decode, compare with acknowledged batches, re-encode byte-for-byte; golden fixtures of the pinned commit",
          "After random workloads every segment file is decoded by internal/fmtspec (written from README.md only), compared with the harness's record of acknowledged batches and the codec's payloads, checked against file name and metadata (sealed <=> index frame, IndexStart, index offsets) and re-encoded byte-for-byte; the BoltDB record is read directly with bbolt for the documented JSON fields; 12 golden directories written by the pinned commit must open with identical contents and stay usable.",
          "README reading: first commit CRC includes the file header; bucket name wal-meta per the property anchors", "E5 fmtspec", "4 C09"),
+ "C07": ("exploration", "syscall-trace monitor: production fs+BoltDB in child processes under strace, rules R1-R7 over the parsed trace with API/VFS markers, multi-lifetime with self-kills",
+         "Child processes run the real fs and metadb packages under strace -f -y; the trace is parsed (unfinished/resumed joined, fd paths resolved) and checked: no append acknowledged with un-fsynced segment writes; directory fsynced between a segment's creation and its first acknowledged commit, across process lifetimes incl. killed ones; Delete = unlink + directory fsync; O_EXCL, preallocation, zero fill; wal-meta.db only via synced tmp + rename + directory fsync; hook events used for calibrating the simulated disk match the syscalls; no acknowledgement with un-synced metadata writes.",
+         "kernel honours fsync; strace output complete (unparsed relevant lines make the run inconclusive)", "E3 proc+strace", "4 C07"),
 }
 
 NOT_YET = {}
@@ -111,6 +114,7 @@ def main():
             {"name": "E1 faults", "path": "checks/c10.go, internal/simfs", "serves_properties": ["C10"], "kind_free_text": "fault injection at every VFS/MetaStore call of re-executed workloads"},
             {"name": "E6 mutate", "path": "checks/c11.go", "serves_properties": ["C11"], "kind_free_text": "corruption operators over valid directories with budgets"},
             {"name": "E5 fmtspec", "path": "internal/fmtspec, checks/c09.go, golden/", "serves_properties": ["C09"], "kind_free_text": "independent implementation of the documented on-disk format + fixtures from the pinned commit"},
+            {"name": "E3 proc+strace", "path": "internal/proc, checks/c07.go (and the SIGKILL part of checks/c08.go)", "serves_properties": ["C07", "C08"], "kind_free_text": "production stack in child processes, strace capture and parser, trace monitor, self-kill points"},
             {"name": "E1 crashsim", "path": "internal/crashsim, internal/simfs", "serves_properties": ["C01", "C02", "C03", "C04", "C13"], "kind_free_text": "production wal+segment over a crash/fault-simulating VFS+MetaStore; snapshots at every I/O boundary; crash images; model oracle"},
         ],
         "checks": checks,
